@@ -4,11 +4,11 @@ import os
 
 import vlib
 
-PROPS = ['Rangers.Props.C02', 'Rangers.Props.C02Facts', 'Rangers.Props.C02Live', 'Rangers.Props.C02Iter']
+PROPS = ['Rangers.Props.C02', 'Rangers.Props.C02Facts', 'Rangers.Props.C02Live', 'Rangers.Props.C02Iter', 'Rangers.Props.C02Ndb']
 DRIVERS = ['C02']
 META = dict(
     level='proof',
-    technique='Lean 4 theorems (56 obligations, core Lean, no Mathlib) about executable transcriptions of '
+    technique='Lean 4 theorems (64 obligations, core Lean, no Mathlib) about executable transcriptions of '
               'src/storage/trie: (a) the fully loaded trie: insert/delete keep the minimal form, minimal form is unique '
               'for a content, root history-independent for every hash function, node encoding = Yellow Paper c(J,i), '
               'reads = last write, iteration complete and ordered, panic branches unreachable; (b) the live trie '
